@@ -16,12 +16,60 @@ LEVEL_TEXT = ("[CEILING / FLOOR: for all numbers and 9 fixed dyadic significance
 TRUSTED = ['builtin round, math.factorial, int(text, base), hex(): assumed library functions', 'machine arithmetic treated as mathematical (real_arith)']
 
 
+C17_NAMES = ['ROUND', 'ROUNDUP', 'ROUNDDOWN', 'CEILING', 'FLOOR', 'INT', 'EVEN', 'ODD', 'QUOTIENT', 'MOD', 'SIGN', 'FACT', 'FACTDOUBLE', 'HEX2DEC', 'DEC2HEX',
+             'DECIMAL', 'BASE', 'ARABIC', 'ROMAN', 'IMREAL', 'IMAGINARY', 'COMPLEX']
+
+
 def extra(report, env):
     from pyvc import e2e, native
+    from props.common import table_obligations
+    from props.C01 import find_loops, TERMINATION
+    # "every call terminates": every while-loop of the two modules has a listed termination argument (shared with C01)
+    loops = [l for l in find_loops(env['repo']) if 'formulas/mathtrig.py' in l or 'formulas/engineering.py' in l]
+    table_obligations(report, 'C17', [('termination.' + l, l in TERMINATION, 'a while-loop without a termination argument (variant in a sidecar contract): %s' % l)
+                                      for l in loops] + [('termination.loops-enumerated', True, '%d while loops in mathtrig / engineering' % len(loops))])
     rng = random.Random(env['seed'])
     p = e2e.new_parser()
     cases = 0
     fails = []
+    # every function of the statement on arguments of every kind (fractions where whole numbers are expected, negatives, huge and tiny
+    # magnitudes, text, logicals, blanks) comes back - under a line budget
+    # (magnitudes stay moderate: FACT(1e15), ROUND(x, 1e15) and the like are bounded by the size of the number they have to build, not by a loop - DESIGN 7)
+    odd = [3.5, 0.5, -0.5, 7 / 2, 1e-9, 2.0000000001, -3.999999, 3999.5, 4000, 0, -1, 170.5, 1000, -1000, True, False, None, '3.5', 'x', '', '1e2', [1, 2]]
+    for name in C17_NAMES:
+        for a in odd:
+            for b in (None, 0, 2, 4, 3.5, -1, 16):
+                p.set_variable('va', a)
+                p.set_variable('vb', b)
+                for text in (['%s(va)' % name] if b is None else ['%s(va,vb)' % name, '%s(vb,va)' % name]):
+                    cases += 1
+                    try:
+                        r = e2e.run_budgeted(lambda: p.parse(text), 300000)
+                        bad = e2e.well_formed(r)
+                    except e2e.Budget:
+                        bad = 'does not terminate within the line budget'
+                    except BaseException as ex:
+                        bad = 'parse raised %s' % type(ex).__name__
+                    if bad and len(fails) < 5:
+                        fails.append({'formula': text, 'bind': [repr(a), repr(b)], 'detail': bad})
+    # ROUND / ROUNDUP / ROUNDDOWN at digits <= 0 are exact in floating point: no tolerance at all
+    for x in (0.49999999999999994, -0.49999999999999994, 1.4999999999999998, 2.5, -2.5, 0.5, 4503599627370497.0, 4503599627370495.5, 123456.5, 1e15 + 0.5, 14.999999999999998):
+        for d in (0, -1):
+            unit = Fraction(10) ** (-d)
+            for name in ('ROUND', 'ROUNDUP', 'ROUNDDOWN'):
+                cases += 1
+                p.set_variable('va', x)
+                p.set_variable('vb', d)
+                r = p.parse('%s(va,vb)' % name)
+                if r['error'] is not None:
+                    ok = False
+                else:
+                    v, fx = Fraction(r['result']), Fraction(x)
+                    mult = (v / unit).denominator == 1
+                    ok = mult and ((abs(v - fx) <= unit / 2) if name == 'ROUND' else
+                                   (abs(v) >= abs(fx) and abs(v) - abs(fx) < unit) if name == 'ROUNDUP' else (abs(v) <= abs(fx) and abs(fx) - abs(v) < unit))
+                if not ok and len(fails) < 5:
+                    fails.append({'formula': '%s(%r,%d)' % (name, x, d), 'bind': [repr(x), repr(d)], 'detail': 'exactly: a multiple of %s on the stated side / within half a unit; got %r' % (unit, r)})
 
     def call(name, *args):
         for k, v in zip(('va', 'vb', 'vc'), args):
@@ -192,7 +240,7 @@ def extra(report, env):
         r1, r2 = p.parse('IMREAL(COMPLEX(va,vb))'), p.parse('IMAGINARY(COMPLEX(va,vb))')
         if (r1['result'], r2['result']) != (re_, im) and len(fails) < 5:
             fails.append({'formula': 'IMREAL/IMAGINARY(COMPLEX(%d,%d))' % (re_, im), 'detail': 'got %r %r' % (r1, r2)})
-    bounded(report, 'C17.grid', '32 numbers x digits -6..6 x 3 rounding functions, x 10 significances x CEILING/FLOOR, numbers 2^-34 and 2^-20 significances beside a multiple (8 significances x 8 multiples; also ROUNDUP/ROUNDDOWN/INT), INT/SIGN/EVEN/ODD, x 8 divisors '
+    bounded(report, 'C17.grid', 'termination sweep: 22 functions x 22 odd arguments x 7 second arguments under a line budget; ROUND* exactly at digits 0 / -1 on 11 near-half numbers; 32 numbers x digits -6..6 x 3 rounding functions, x 10 significances x CEILING/FLOOR, numbers 2^-34 and 2^-20 significances beside a multiple (8 significances x 8 multiples; also ROUNDUP/ROUNDDOWN/INT), INT/SIGN/EVEN/ODD, x 8 divisors '
             'QUOTIENT/MOD (exact Fraction reference), FACT 0..24, seeded radix round trips over the 40-bit range x radix 2..36, out-of-range '
             'arguments, ROMAN/ARABIC exhaustively (3999 x 5 forms), COMPLEX', cases, fails)
 
